@@ -275,3 +275,36 @@ def grid_group(dim, with_mirrors=True):
         for a in range(dim):
             out.append(GridTransform(dim, None, (a,)))
     return out
+
+
+# ---------------------------------------------------------------------------- differentiation
+def diff_rat(r, atom):
+    """d r / d atom for a rational function whose function atoms are sin/cos of rational arguments"""
+    from .poly import mk_fn
+    r = as_rat(r)
+
+    def dpoly(p):
+        res = Rat(Poly())
+        for m, c in p.t.items():
+            for i, (a, e) in enumerate(m):
+                if a == atom:
+                    da = Rat(Poly.const(1))
+                elif a[0] == "fn":
+                    arg = fn_arg(a)
+                    if atom not in arg.all_atoms():
+                        continue
+                    darg = diff_rat(arg, atom)
+                    if a[1] == "sin":
+                        da = as_rat(mk_fn("cos", arg)) * darg
+                    elif a[1] == "cos":
+                        da = -as_rat(mk_fn("sin", arg)) * darg
+                    else:
+                        raise Unsupported("derivative of %s" % a[1])
+                else:
+                    continue
+                rest = tuple(x for j, x in enumerate(m) if j != i)
+                term = Rat(Poly({rest: c})) * Rat(Poly.atom(a) ** (e - 1)) * da * e if e > 1 else Rat(Poly({rest: c})) * da
+                res = res + term
+        return res
+    dn, dd = dpoly(r.num), dpoly(r.den)
+    return (dn * Rat(r.den) - Rat(r.num) * dd) / Rat(r.den * r.den)
